@@ -171,6 +171,20 @@ elif fn == "dumps":
     print("got     :", got[:2])
     print("expected:", exp[:2])
     res = (got[:2] != exp[:2]) if exp[0] == "ok" else not (got[0] == "exc" and got[1] == "ValueError")
+    # a writer option given to the entry point reaches the class writer (xyz: write_header)
+    if not res and fmt in ("xyz", None) or w.get("option"):
+        try:
+            g_opt = outcome(lambda: ml.dumps(obj, "xyz", write_header=False))
+            e_opt = outcome(lambda: obj.dumps_xyz(write_header=False))
+            s_opt = io.StringIO()
+            d_opt = outcome(lambda: ml.dump(obj, s_opt, fmt="xyz", write_header=False))
+            if e_opt[0] == "ok" and (g_opt[:2] != e_opt[:2] or d_opt[0] != "ok" or s_opt.getvalue() != e_opt[1]):
+                print("REPRODUCED: ml.dumps/ml.dump(obj, 'xyz', write_header=False) does not return what obj.dumps_xyz(write_header=False) returns")
+                sys.exit(0)
+        except SystemExit:
+            raise
+        except BaseException:
+            pass
 
 if res:
     print("REPRODUCED: entry point disagrees with the class-level codec")
